@@ -14,11 +14,13 @@ def available_profiles():
     return list(gen.PROFILES)
 
 
-def std_streams(rng, tier, pid, kinds=("random", "pct", "rr", "dfs"), per_quick=60, per_thorough=1200, extra_cfg=None):
+def std_streams(rng, tier, pid, kinds=("random", "pct", "rr", "dfs"), per_quick=60, per_thorough=1200, extra_cfg=None, profiles=None):
     """one trace-mode stream per generator profile"""
     res = {}
     per = per_quick if tier == "quick" else per_thorough
-    for prof in available_profiles():
+    for prof in (profiles or available_profiles()):
+        if prof not in gen.PROFILES:
+            continue
         lines = gen.batch(rng.next(), prof, per, f"{pid.lower()}_{prof}_", kinds)
         if extra_cfg:
             lines = extra_cfg(lines)
@@ -36,13 +38,13 @@ def apply_oracle(results, oracle):
     return bad
 
 
-def run_kernel_prop(pid, tier, seed, lean_targets, audit, prefixes, proofs_scan, oracle, explanation, extra=None, kinds=("random", "pct", "rr", "dfs")):
+def run_kernel_prop(pid, tier, seed, lean_targets, audit, prefixes, proofs_scan, oracle, explanation, extra=None, kinds=("random", "pct", "rr", "dfs"), profiles=None, per_quick=60, lemma_prefixes=("Kernel",)):
     c = Check(pid, tier, seed)
     c.assumptions = ["Lean 4.33.0 kernel; axioms per theorem via #print axioms (⊆ propext, Classical.choice, Quot.sound)",
                      "modelled, not verified: corosensei coroutines (a resumed task continues where it yielded), Rust unwinding, the RefCell discipline",
                      "the kernel theorems hold for every Program over the kernel API; that the real runtime behaves as the model is checked step-exactly on the generated programs only",
                      "harness (vh), generators and this script are unverified"]
-    ok_build, ok_audit = build_and_audit(c, lean_targets, audit, KERNEL_SCAN + proofs_scan + lemma_files(["Kernel"]), prefixes)
+    ok_build, ok_audit = build_and_audit(c, lean_targets, audit, KERNEL_SCAN + proofs_scan + lemma_files(list(lemma_prefixes)), prefixes)
     if not c.cargo_build(("vh",)):
         c.violation_noinput("harness does not build: " + getattr(c, "cargo_error", "")[-300:], "cargo build vh")
         return c.finish()
@@ -51,7 +53,7 @@ def run_kernel_prop(pid, tier, seed, lean_targets, audit, prefixes, proofs_scan,
     corpus = corpus_programs(pid)
     if corpus:
         results["corpus"] = run_stream(f"{pid.lower()}_corpus", corpus, "trace")
-    results.update(std_streams(rng, tier, pid, kinds))
+    results.update(std_streams(rng, tier, pid, kinds, per_quick=per_quick, profiles=profiles))
     bad = apply_oracle(results, oracle) if oracle else []
     if extra:
         more_results, more_bad = extra(c, rng, tier, results)
